@@ -991,7 +991,8 @@ func (e *SpecEnv) callExpr(v *ast.CallExpr) Val {
 			r := e.uninterp(v.Args, e.c.ar.idxSort()).(Scalar)
 			r.Ty = types.Typ[types.Int]
 			return r
-		case "trig":
+		case "trig", "atrig":
+			// atrig(s, k) is trig(s, k) plus: the enclosing quantifier ranges over the absolute index off(s)+k
 			// trig(s, k): an arithmetic-free term identifying element k of slice s, for use as a quantifier trigger
 			sl, ok := e.eval(v.Args[0]).(SliceV)
 			if !ok {
@@ -1224,10 +1225,18 @@ func (e *SpecEnv) quant(kind string, args []ast.Expr) Val {
 	n.bound[id.Name] = Scalar{qn, sort, types.Typ[types.Int]}
 	var body, guard string
 	var trigArgs []ast.Expr
+	if len(args) >= 5 {
+		// trig(s, k) on the bound variable: quantify over the absolute index a = off(s) + k instead, so that the
+		// trigger (mkelem arr a) / (select .. a) matches every element term of that array however its index was computed
+		if off, ok := e.absIndexOffset(args[4], id.Name); ok && off != e.c.ar.idx(0) {
+			n.bound[id.Name] = Scalar{e.c.idxSub(qn, off), sort, types.Typ[types.Int]}
+		}
+	}
 	if len(args) >= 4 {
 		lo := n.idxTerm(n.eval(args[1]))
 		hi := n.idxTerm(n.eval(args[2]))
-		guard = fmt.Sprintf("(and %s %s)", e.c.idxCmp(token.LEQ, lo, qn), e.c.idxCmp(token.LSS, qn, hi))
+		kv := n.bound[id.Name].(Scalar).T
+		guard = fmt.Sprintf("(and %s %s)", e.c.idxCmp(token.LEQ, lo, kv), e.c.idxCmp(token.LSS, kv, hi))
 		body = n.evalBool(args[3])
 		trigArgs = args[4:]
 	} else if len(args) == 3 {
@@ -1286,6 +1295,42 @@ func (e *SpecEnv) quant(kind string, args []ast.Expr) Val {
 	return Scalar{t, SBool, boolT}
 }
 
+// absIndexOffset: if t is the call trig(S, v) with v the given bound variable, returns the offset term of slice S.
+func (e *SpecEnv) absIndexOffset(t ast.Expr, v string) (off string, ok bool) {
+	call, isCall := t.(*ast.CallExpr)
+	if !isCall {
+		return "", false
+	}
+	fn, isId := call.Fun.(*ast.Ident)
+	if isId && fn.Name == "old" && len(call.Args) == 1 && e.old != nil {
+		n := e.sub()
+		n.heap = e.old
+		n.useSrc = false
+		return n.absIndexOffset(call.Args[0], v)
+	}
+	if !isId || fn.Name != "atrig" || len(call.Args) != 2 {
+		return "", false
+	}
+	kid, isK := call.Args[1].(*ast.Ident)
+	if !isK || kid.Name != v {
+		return "", false
+	}
+	defer func() {
+		if r := recover(); r != nil {
+			if _, isSpec := r.(specError); isSpec {
+				ok = false
+				return
+			}
+			panic(r)
+		}
+	}()
+	sl, isSl := e.eval(call.Args[0]).(SliceV)
+	if !isSl {
+		return "", false
+	}
+	return sl.Off, true
+}
+
 func (e *SpecEnv) quant2(args []ast.Expr) Val {
 	if len(args) < 5 {
 		specFail("forall2(j, k, lo, hi, body [, triggers...])")
@@ -1303,9 +1348,18 @@ func (e *SpecEnv) quant2(args []ast.Expr) Val {
 	sort := e.c.ar.idxSort()
 	n.bound[j.Name] = Scalar{jn, sort, types.Typ[types.Int]}
 	n.bound[k.Name] = Scalar{kn, sort, types.Typ[types.Int]}
+	if len(args) >= 7 {
+		if off, ok := e.absIndexOffset(args[5], j.Name); ok && off != e.c.ar.idx(0) {
+			n.bound[j.Name] = Scalar{e.c.idxSub(jn, off), sort, types.Typ[types.Int]}
+		}
+		if off, ok := e.absIndexOffset(args[6], k.Name); ok && off != e.c.ar.idx(0) {
+			n.bound[k.Name] = Scalar{e.c.idxSub(kn, off), sort, types.Typ[types.Int]}
+		}
+	}
 	lo := n.idxTerm(n.eval(args[2]))
 	hi := n.idxTerm(n.eval(args[3]))
-	guard := fmt.Sprintf("(and %s %s %s)", e.c.idxCmp(token.LEQ, lo, jn), e.c.idxCmp(token.LSS, jn, kn), e.c.idxCmp(token.LSS, kn, hi))
+	jv, kv := n.bound[j.Name].(Scalar).T, n.bound[k.Name].(Scalar).T
+	guard := fmt.Sprintf("(and %s %s %s)", e.c.idxCmp(token.LEQ, lo, jv), e.c.idxCmp(token.LSS, jv, kv), e.c.idxCmp(token.LSS, kv, hi))
 	body := n.evalBool(args[4])
 	inner := fmt.Sprintf("(=> %s %s)", guard, body)
 	if len(args) > 5 {
